@@ -56,6 +56,8 @@ type scenario struct {
 	Templates []tmpl   `json:"templates"`
 	Phases    []params `json:"phases"`
 	// NameFault: in phase NameFaultPhase, the NameFaultNth name-availability Get of the reconcile fails.
+	// Anonymous: templates carry no name (associated with resourceRefs by position).
+	Anonymous      bool  `json:"anonymous"`
 	NameFaultPhase int   `json:"nameFaultPhase"`
 	NameFaultNth   int   `json:"nameFaultNth"`
 	Seed           int64 `json:"seed"`
@@ -65,7 +67,7 @@ var paramNames = []string{"p0", "p1", "p2"}
 
 func genScenario() *rapid.Generator[scenario] {
 	return rapid.Custom(func(t *rapid.T) scenario {
-		sc := scenario{Seed: rapid.Int64Range(1, 1<<40).Draw(t, "seed"), NameFaultPhase: -1}
+		sc := scenario{Seed: rapid.Int64Range(1, 1<<40).Draw(t, "seed"), NameFaultPhase: -1, Anonymous: rapid.IntRange(0, 2).Draw(t, "anonymous") == 0}
 		n := rapid.IntRange(2, 4).Draw(t, "ntemplates")
 		for i := 0; i < n; i++ {
 			sc.Templates = append(sc.Templates, tmpl{
@@ -111,6 +113,9 @@ func (sc scenario) composition() *v1.Composition {
 		}
 		base, _ := json.Marshal(o)
 		ct := v1.ComposedTemplate{Name: ptr.To(tp.Name), Base: runtime.RawExtension{Raw: base}}
+		if sc.Anonymous {
+			ct.Name = nil
+		}
 		req := v1.FromFieldPathPolicyRequired
 		opt := v1.FromFieldPathPolicyOptional
 		from := "spec.params." + tp.Param
@@ -185,6 +190,43 @@ func setParams(env *verifenv.XREnv, p params) {
 	}
 }
 
+// composedFor maps template name -> its composed resource: by the composition-resource-name annotation for
+// named templates, by position in the XR's stored spec.resourceRefs for anonymous ones.
+func (sc scenario) composedFor(env *verifenv.XREnv, xrUID string) map[string]verifsim.Obj {
+	if !sc.Anonymous {
+		return composedByName(env.Sim, xrUID)
+	}
+	out := map[string]verifsim.Obj{}
+	xr := env.Sim.Get(env.XRKey(xrName))
+	l, _ := verifsim.Nested(xr, "spec", "resourceRefs").([]any)
+	for i, tp := range sc.Templates {
+		if i >= len(l) {
+			break
+		}
+		m, _ := l[i].(map[string]any)
+		name, _ := m["name"].(string)
+		if name == "" {
+			continue
+		}
+		if o := env.Sim.Get(verifsim.Key{Group: "example.org", Kind: tp.Kind, Name: name}); o != nil {
+			out[tp.Name] = o
+		}
+	}
+	return out
+}
+
+// refNameAt returns the name recorded at position i of the XR's stored resourceRefs.
+func refNameAt(env *verifenv.XREnv, i int) string {
+	xr := env.Sim.Get(env.XRKey(xrName))
+	l, _ := verifsim.Nested(xr, "spec", "resourceRefs").([]any)
+	if i >= len(l) {
+		return ""
+	}
+	m, _ := l[i].(map[string]any)
+	n, _ := m["name"].(string)
+	return n
+}
+
 func composedByName(s *verifsim.Sim, xrUID string) map[string]verifsim.Obj {
 	out := map[string]verifsim.Obj{}
 	for _, k := range s.AllKeys() {
@@ -212,6 +254,7 @@ func TestVerifC10Composer(t *testing.T) {
 	rapid.Check(t, func(t *rapid.T) {
 		sc := genScenario().Draw(t, "scenario")
 		rec.Eval()
+		rec.Labelf("anonymous=%v", sc.Anonymous)
 		utilrand.Seed(sc.Seed)
 		env := verifenv.NewXREnv()
 		env.InstallComposition(sc.composition(), 1)
@@ -228,7 +271,7 @@ func TestVerifC10Composer(t *testing.T) {
 			// Settle XR bookkeeping writes (finalizer, labels, revision ref) so that the reconcile we
 			// judge is one that reaches composition. Two fault-free reconciles of an *empty* probe are
 			// not possible here, so we simply judge the first reconcile that composes.
-			before := composedByName(env.Sim, xrUID)
+			before := sc.composedFor(env, xrUID)
 			logStart := env.Sim.LogLen()
 			plan := map[int]verifsim.Fault{}
 			nameFailed := map[string]bool{}
@@ -261,7 +304,7 @@ func TestVerifC10Composer(t *testing.T) {
 				}
 			}
 			log := env.Sim.Log()[logStart:]
-			after := composedByName(env.Sim, xrUID)
+			after := sc.composedFor(env, xrUID)
 			xrObj := env.Sim.Get(env.XRKey(xrName))
 			refs := refNames(xrObj)
 
@@ -281,7 +324,7 @@ func TestVerifC10Composer(t *testing.T) {
 			}
 
 			anyFail, anyOK := false, false
-			for _, tp := range sc.Templates {
+			for ti, tp := range sc.Templates {
 				ok := rendersOK(tp, p) && !nameFailed[tp.Name]
 				if ok {
 					anyOK = true
@@ -300,8 +343,22 @@ func TestVerifC10Composer(t *testing.T) {
 					if n == "" {
 						n = verifsim.Annotations(w.Before)[annName]
 					}
+					if sc.Anonymous {
+						n = ""
+						if rn := refNameAt(env, ti); (rn != "" && w.Key.Name == rn && w.Key.Kind == tp.Kind) || (existed && w.Key.Name == verifsim.MetaString(prev, "name") && w.Key.Kind == tp.Kind) {
+							n = tp.Name
+						}
+					}
 					if n == tp.Name && w.Err == "" && (w.Changed || w.Before == nil) {
 						writes = append(writes, fmt.Sprintf("#%d %s %s changed=%v", w.Seq, w.Verb, w.Key, w.Changed))
+					}
+				}
+				if !ok && !existed && sc.Anonymous {
+					// an anonymous, not yet existing resource is only findable through the reference recorded for it
+					if rn := refNameAt(env, ti); rn != "" {
+						if o := env.Sim.Get(verifsim.Key{Group: "example.org", Kind: tp.Kind, Name: rn}); o != nil {
+							cur, exists = o, true
+						}
 					}
 				}
 				if !ok {
